@@ -463,6 +463,8 @@ pub const FLAVOURS: &[Flavour] = &[
   Flavour { name: "mpmc_rv", kind: "rv", bounded: true },
   Flavour { name: "mpmc_rv_async", kind: "rv", bounded: true },
   Flavour { name: "oneshot", kind: "os", bounded: true },
+  Flavour { name: "mpmcx_b", kind: "q", bounded: true },
+  Flavour { name: "mpmcx_b_async", kind: "q", bounded: true },
   Flavour { name: "spmc_b", kind: "bc", bounded: true },
   Flavour { name: "spmc_b_async", kind: "bc", bounded: true },
 ];
@@ -489,6 +491,8 @@ pub fn make(name: &str, cap: usize) -> (Box<dyn DynTx>, Box<dyn DynRx>) {
     "mpsc_rv_async" => { let (s, r) = fibre::mpsc::rendezvous::rendezvous_async::<Tok>(); (tx(s), rx(r)) }
     "mpmc_rv" => { let (s, r) = fibre::mpmc::rendezvous::rendezvous::<Tok>(); (tx(s), rx(r)) }
     "mpmc_rv_async" => { let (s, r) = fibre::mpmc::rendezvous::rendezvous_async::<Tok>(); (tx(s), rx(r)) }
+    "mpmcx_b" => { let (s, r) = fibre::mpmc_exp::bounded::<Tok>(cap); (tx(s), rx(r)) }
+    "mpmcx_b_async" => { let (s, r) = fibre::mpmc_exp::bounded_async::<Tok>(cap); (tx(s), rx(r)) }
     "spmc_b" => { let (s, r) = fibre::spmc::bounded::<Tok>(cap); (tx(s), rx(r)) }
     "spmc_b_async" => { let (s, r) = fibre::spmc::bounded_async::<Tok>(cap); (tx(s), rx(r)) }
     "oneshot" => { let (s, r) = fibre::oneshot::oneshot::<Tok>(); (tx(OneshotTx(Some(s))), rx(OneshotRx(r))) }
